@@ -438,7 +438,10 @@ def weak_cases(seed, n):
         new = [rng.randrange(7, 10) for _ in range(rng.randrange(0, 3))]
         if rng.random() < 0.15:
             new = list(pat) + new          # a value that contains the target again
-        out.append((rng.randrange(4), pat, new, l, rng.random() < 0.3, rng.random() < 0.5))
+        variant = rng.choice([0, 0, 0, 1, 2, 3])      # plain / target given as bytes / the value is the edited Wikicode itself / value as bytes
+        if variant == 2:
+            new = list(l)
+        out.append((rng.randrange(4), pat, new, l, rng.random() < 0.3, rng.random() < 0.5, variant))
     return out
 
 
@@ -446,11 +449,13 @@ def _weak_work(cases):
     import mwparserfromhell
     from mwparserfromhell.nodes import Template
     res = []
-    for kind, pat, new, l, nested, recursive in cases:
+    for kind, pat, new, l, nested, recursive, variant in cases:
         tx = lambda ids: "".join("{{%d}}" % i for i in ids)
         page = mwparserfromhell.parse("{{t|" + tx(l) + "}}" if nested else tx(l))
         holder = page.nodes[0].params[0].value if nested else page
-        args = (tx(pat),) if kind == 0 else (tx(pat), tx(new))
+        target = tx(pat).encode() if variant == 1 else tx(pat)
+        value = holder if variant == 2 else (tx(new).encode() if variant == 3 else tx(new))
+        args = (target,) if kind == 0 else (target, value)
         try:
             getattr(page if (nested and recursive) else holder, WEAK_KINDS[kind])(*args, recursive=recursive)
         except ValueError:
@@ -471,7 +476,7 @@ def weak_tie(c, tier, seed):
     cases = weak_cases(seed, 6000 if tier == "quick" else 200000)
     real = vlib.robust_map(_weak_work, cases, chunk=500, timeout=120)
     lines = ["%d %d %s %d %s %d %s" % (k, len(p), " ".join(map(str, p)), len(nw), " ".join(map(str, nw)), len(l), " ".join(map(str, l)))
-             for k, p, nw, l, _n, _r in cases]
+             for k, p, nw, l, _n, _r, _v in cases]
     try:
         model = vlib.model_run("weaksearch", lines)
     except Exception as e:  # noqa: BLE001
@@ -485,7 +490,7 @@ def weak_tie(c, tier, seed):
             continue
         if r.strip() != m.strip():
             dis += 1
-            kind, pat, new, l, nested, recursive = case
+            kind, pat, new, l, nested, recursive, variant = case
             # the model is proved to edit only occurrences: is the implementation's result still of that shape?
             bad = None
             if not r.startswith("E") and not r.startswith("?") and not m.startswith("E"):
@@ -498,9 +503,10 @@ def weak_tie(c, tier, seed):
             elif r.startswith("?"):
                 bad = "leaves other nodes than the expected templates: %s" % r[2:80]
             if bad:
-                c.fail("%s(%r%s, recursive=%r) on %r %s: got %s, the model (scan from the end, disjoint exact matches) gives %s"
+                c.fail("%s(%r%s, recursive=%r)%s on %r %s: got %s, the model (scan from the end, disjoint exact matches) gives %s"
                        % (WEAK_KINDS[kind], "".join("{{%d}}" % i for i in pat), "" if kind == 0 else ", %r" % "".join("{{%d}}" % i for i in new),
-                          recursive, ("{{t|%s}}" if nested else "%s") % "".join("{{%d}}" % i for i in l), bad, r, m), {"weak_case": list(case)})
+                          recursive, ["", " with the target as bytes", " with the edited Wikicode itself as the value", " with the value as bytes"][variant],
+                          ("{{t|%s}}" if nested else "%s") % "".join("{{%d}}" % i for i in l), bad, r, m), {"weak_case": list(case)})
             elif dis <= 3:
                 c.broken.append({"file": "correspondence string targets", "line": 0, "statement": "weak_edit (model tie)",
                                  "error": "case %r: model %r vs implementation %r" % (case, m, r)})
